@@ -28,12 +28,30 @@ type c18target struct {
 	prev []ref.Val // content before this block (for "untouched")
 }
 
+var inferableKindsCache []*gen.Kind
+
+// inferableKinds: the kinds whose type Results.Auto() can infer a column for.
+func inferableKinds() []*gen.Kind {
+	if inferableKindsCache == nil {
+		for _, k := range gen.Kinds {
+			if autoInferable(k.T.Name) {
+				inferableKindsCache = append(inferableKindsCache, k)
+			}
+		}
+	}
+	return inferableKindsCache
+}
+
 func distinctKinds(rt *rapid.T, n int) []*gen.Kind {
+	return distinctKindsFrom(rt, n, gen.Kinds)
+}
+
+func distinctKindsFrom(rt *rapid.T, n int, pool []*gen.Kind) []*gen.Kind {
 	// Kinds with pairwise different base type names so that swaps are real mismatches.
 	var out []*gen.Kind
 	seen := map[string]bool{}
 	for len(out) < n {
-		k := gen.Kinds[rapid.IntRange(0, len(gen.Kinds)-1).Draw(rt, "kind")]
+		k := pool[rapid.IntRange(0, len(pool)-1).Draw(rt, "kind")]
 		b := refBase(k.T.Name)
 		fam := b
 		switch {
@@ -80,12 +98,15 @@ func c18decode(data []byte, rev int, res proto.Results) error {
 func TestC18Binding(t *testing.T) {
 	st := stats.G()
 	classes := []string{"identical", "permuted", "renamed", "extra-column", "missing-column", "blank-names", "type-swapped",
-		"fixedstring-size", "zero-rows-no-targets", "zero-rows-with-targets", "custom-serialization", "schema-change-sequence"}
+		"fixedstring-size", "zero-rows-no-targets", "zero-rows-with-targets", "custom-serialization", "schema-change-sequence", "auto-targets-enforced"}
 	rapid.Check(t, func(rt *rapid.T) {
 		class := rapid.SampledFrom(classes).Draw(rt, "class")
 		rev := rapid.SampledFrom(blockRevs).Draw(rt, "rev")
 		n := rapid.IntRange(2, 4).Draw(rt, "ncols")
 		kinds := distinctKinds(rt, n)
+		if class == "auto-targets-enforced" {
+			kinds = distinctKindsFrom(rt, n, inferableKinds())
+		}
 		rows := rapid.IntRange(1, 6).Draw(rt, "rows")
 		var cols []colSpec
 		for i, k := range kinds {
@@ -280,6 +301,79 @@ func TestC18Binding(t *testing.T) {
 				rt.Fatalf("[%s] block with the custom-serialization flag set on column %d was accepted (err=%v)", class, i, err)
 			}
 			_ = tc
+		case "auto-targets-enforced":
+			// Targets created by Results.Auto() from the first block are the bound targets from
+			// then on: a later block is held to their count, names and types.
+			for _, c := range cols {
+				if !autoInferable(c.Kind.T.Name) {
+					rt.Skip("a type without automatic inference")
+				}
+			}
+			var res proto.Results
+			auto := res.Auto()
+			decodeAutoBlock := func(data []byte) error {
+				var b proto.Block
+				r := readerOf(data)
+				return safely(func() error { return b.DecodeBlock(r, rev, auto) })
+			}
+			if err := decodeAutoBlock(encodeRefBlock(rev, blockCols(cols), -1)); err != nil {
+				rt.Fatalf("[%s] first block into Results.Auto(): %v", class, err)
+			}
+			if len(res) != n {
+				rt.Fatalf("[%s] %d targets inferred from a block of %d columns", class, len(res), n)
+			}
+			second := append([]colSpec(nil), cols...)
+			for i := range second {
+				second[i].Rows = gen.DrawRows(rt, second[i].Kind, rows)
+			}
+			how := rapid.SampledFrom([]string{"same", "extra", "missing", "renamed", "type-swapped"}).Draw(rt, "second-block")
+			i := rapid.IntRange(0, n-1).Draw(rt, "which")
+			switch how {
+			case "extra":
+				second = append(second, colSpec{Name: "extra", Kind: cols[0].Kind, Rows: second[0].Rows})
+			case "missing":
+				second = second[:n-1]
+			case "renamed":
+				second[i].Name = "renamed"
+			case "type-swapped":
+				j := (i + 1) % n
+				second[i] = colSpec{Name: cols[i].Name, Kind: cols[j].Kind, Rows: second[j].Rows}
+			}
+			err := decodeAutoBlock(encodeRefBlock(rev, blockCols(second), -1))
+			st.Label("auto-second-block:" + how)
+			if how == "same" {
+				if err != nil {
+					rt.Fatalf("[%s] second block of the same schema: %v", class, err)
+				}
+			} else if err == nil || isPanic(err) {
+				rt.Fatalf("[%s] second block (%s: %v) after targets were inferred from %v: decode returned %v, want an error", class, how, typeNames(second), typeNames(cols), err)
+			}
+			if len(res) != n {
+				rt.Fatalf("[%s] second block (%s) changed the number of bound targets from %d to %d", class, how, n, len(res))
+			}
+			for k := range res {
+				if res[k].Name != cols[k].Name || res[k].Data.Type().Conflicts(proto.ColumnType(cols[k].Kind.T.Name)) {
+					rt.Fatalf("[%s] second block (%s): target %d is now %q %s, was inferred as %q %s", class, how, k, res[k].Name, res[k].Data.Type(), cols[k].Name, cols[k].Kind.T.Name)
+				}
+				vals, rerr := gen.ReflectRows(cols[k].Kind.T, res[k].Data)
+				if rerr != nil {
+					rt.Fatalf("[%s] second block (%s): target %d unreadable: %v", class, how, k, rerr)
+				}
+				if how == "same" {
+					if j, ok := ref.EqualRows(cols[k].Kind.T, vals, second[k].Rows); !ok {
+						rt.Fatalf("[%s] second block: target %d row %d differs", class, k, j)
+					}
+					continue
+				}
+				_, first := ref.EqualRows(cols[k].Kind.T, vals, cols[k].Rows)
+				own := false
+				if k < len(second) && second[k].Kind == cols[k].Kind {
+					_, own = ref.EqualRows(cols[k].Kind.T, vals, second[k].Rows)
+				}
+				if len(vals) != 0 && !first && !own {
+					rt.Fatalf("[%s] second block (%s) rejected, but target %d (%s) holds %d rows that are neither the first block's nor its own column", class, how, k, cols[k].Kind.T.Name, len(vals))
+				}
+			}
 		case "schema-change-sequence":
 			tc, res := mkTargets(false)
 			var prev [][]ref.Val
